@@ -181,8 +181,9 @@ func Observe(label string, v ...any) {
 	mu.Unlock()
 }
 
-// Quiesce waits until only timers can run and `rounds` timer periods passed. (intercepted)
-func Quiesce(rounds int) {}
+// Quiesce blocks the caller until nothing but timer-driven goroutines has run for `ms`
+// milliseconds of logical time. (intercepted)
+func Quiesce(ms int) {}
 
 // Yield is an explicit scheduling point. (intercepted)
 func Yield() {}
